@@ -472,3 +472,34 @@ def run(ctx):
                tuple(j for name, j, _ in case['ops'] if name == 'create'))
         ctx.case(sample={'case': {k: v for k, v in case.items() if k != 'ops'}, 'observed': obs}, key=key,
                  nontrivial=case['n'] >= 2 and len(case['edges']) >= 1)
+
+
+# ------------------------------------------------------------------------------------------
+# Validation record (scratch worktree, VERIF_REPO=/tmp/scratch-dsl, quick tier, seed 0; every break applied
+# alone on an otherwise unchanged tree; all runs exit 1).  "DESIGN" = break listed in DESIGN.md §C17.
+#
+#  B1 DESIGN  batch.py  `if job_index[d] >= i` -> `>`                      CAUGHT cycle/self-loop-not-rejected
+#             (only self-loops `j.depends_on(j)` slip through: every longer cycle still has an edge with a strictly larger index)
+#  B2 DESIGN  backend.py cancel_child_jobs ignores `child._always_run`      CAUGHT skip/always-run-job-skipped,
+#             skip/child-of-successful-always-run-job-skipped, skip/unaffected-job-skipped
+#  B3 own     job.py    `_interpolate_command` no longer does `self._dependencies.add(source)` (resource-induced edges lost;
+#             needs a resource-only edge plus a failing producer or a consumer created before its producer)
+#                                                                          CAUGHT order/numbering-ignores-resource-dependency,
+#             order/consumer-ran-before-producer, skip/consumer-of-failed-producer-ran, cycle/jobs-ran-in-cyclic-pipeline
+#  B4 own     backend.py a cancelled job no longer cancels its children (no transitivity; needs a chain of length 3)
+#                                                                          CAUGHT skip/child-of-skipped-job-ran
+#  B5 own     batch.py  `self._jobs = ordered_jobs` dropped (backend runs jobs in creation order; needs a job created
+#             before its dependency)                                       CAUGHT order/execution-before-dependency,
+#             order/consumer-ran-before-producer, skip/child-of-failed-job-ran
+#  B6 own     job.py    a reference to a whole ResourceGroup adds no dependency (only `{job.grp}`-style edges)
+#                                                                          CAUGHT order/numbering-ignores-resource-dependency,
+#             order/consumer-ran-before-producer, skip/consumer-of-failed-producer-ran
+#  B7 own     backend.py only the first failing job cancels its children (needs two independent failures)
+#                                                                          CAUGHT skip/child-of-failed-job-ran
+#  B8 own     backend.py first_exc reset when a later job succeeds (failure swallowed)
+#                                                                          CAUGHT raise/failure-swallowed
+#
+# Unchanged tree: silent (exit 0) for VERIF_SEED 0..4 in both tiers.  No genuine defect of C17 found.
+# Note: LocalBackend raises the first failing job's subprocess.CalledProcessError after all runnable jobs ran; the oracle
+# only demands "raises iff some executed job failed" and accepts any exception as the rejection of a cyclic pipeline
+# (the tree raises BatchException('cycle detected in dependency graph')).
